@@ -179,22 +179,120 @@ theorem splitIndex_start (sd : Nat) (hsd : 0 < sd) (s : Nat) : splitIndex (1 + (
   have : (1 + (s : Int) * sd - 1) = (s : Int) * sd := by omega
   rw [this, Int.mul_ediv_cancel _ hne]
 
-/-- the cuts recovered from the stored index list are the starts of all annotations but the first -/
-theorem cutsOf_indexList {β : Type} (sd : Nat) (hsd : 0 < sd) (a : List β) (rest : List (List β)) :
-    cutsOf (sd : Int) (indexListFrom indexListBase ((a :: rest).map (fun x => (x.length : Int) * sd))) =
+theorem indexListGuard_spec (b1 b2 b3 b4 b5 : Bool) :
+    indexListGuard b1 b2 b3 b4 b5 = if (b1 || b2 || b3 || b4 || b5) = true then .error .value else .ok 0 := by
+  unfold indexListGuard
+  cases b1 <;> cases b2 <;> cases b3 <;> cases b4 <;> cases b5 <;> rfl
+
+theorem starts_ge {β : Type} (anns : List (List β)) : ∀ p, ∀ s ∈ startsFrom p anns, p ≤ s := by
+  induction anns with
+  | nil => intro p s hs; cases hs
+  | cons a rest ih =>
+    intro p s hs
+    simp only [startsFrom, List.mem_cons] at hs
+    rcases hs with rfl | hs
+    · exact Nat.le_refl _
+    · have := ih (p + a.length) s hs; omega
+
+theorem starts_lt_total {β : Type} (anns : List (List β)) (hpos : ∀ a ∈ anns, 0 < a.length) :
+    ∀ p, ∀ s ∈ startsFrom p anns, s < p + anns.flatten.length := by
+  induction anns with
+  | nil => intro p s hs; cases hs
+  | cons a rest ih =>
+    intro p s hs
+    have ha := hpos a (by simp)
+    simp only [startsFrom, List.mem_cons] at hs
+    simp only [List.flatten_cons, List.length_append]
+    rcases hs with rfl | hs
+    · omega
+    · have := ih (fun x hx => hpos x (by simp [hx])) (p + a.length) s hs; omega
+
+theorem starts_increasing {β : Type} (sd : Nat) (hsd : 0 < sd) (anns : List (List β)) (hpos : ∀ a ∈ anns, 0 < a.length) :
+    ∀ p, anyNotIncreasing ((startsFrom p anns).map (fun (s : Nat) => (s : Int) * sd)) = false := by
+  induction anns with
+  | nil => intro p; rfl
+  | cons a rest ih =>
+    intro p
+    have ha := hpos a (by simp)
+    cases rest with
+    | nil => rfl
+    | cons b rest' =>
+      have hrec := ih (fun x hx => hpos x (by simp [hx])) (p + a.length)
+      simp only [startsFrom, List.map_cons] at hrec ⊢
+      unfold anyNotIncreasing
+      rw [hrec]
+      have h1 : ((p + a.length : Nat) : Int) * (sd : Int) - (p : Int) * (sd : Int) = (a.length : Int) * (sd : Int) := by
+        push_cast; rw [Int.add_mul]; omega
+      have h2 : 0 < (a.length : Int) * (sd : Int) := Int.mul_pos (by omega) (by omega)
+      have : ¬ (((p + a.length : Nat) : Int) * (sd : Int) - (p : Int) * (sd : Int) ≤ 0) := by rw [h1]; omega
+      simp only [this, decide_false, Bool.false_or]
+
+theorem checkIndexList_starts {β : Type} (sd : Nat) (hsd : 0 < sd) (a : List β) (rest : List (List β))
+    (hpos : ∀ x ∈ a :: rest, 0 < x.length) :
+    ∃ z, checkIndexList (sd : Int) (((a :: rest).flatten.length : Nat) : Int)
+      ((startsFrom 0 (a :: rest)).map (fun (s : Nat) => 1 + (s : Int) * sd)) = .ok z := by
+  have hz : mapE pointIndexZero ((startsFrom 0 (a :: rest)).map (fun (s : Nat) => 1 + (s : Int) * sd)) =
+      .ok ((startsFrom 0 (a :: rest)).map (fun (s : Nat) => (s : Int) * sd)) := by
+    generalize startsFrom 0 (a :: rest) = l
+    induction l with
+    | nil => rfl
+    | cons x xs ih =>
+      simp only [List.map_cons, mapE, pointIndexZero, ih]
+      congr 2
+      omega
+  refine ⟨(startsFrom 0 (a :: rest)).map (fun (s : Nat) => (s : Int) * sd), ?_⟩
+  have h1 : ((startsFrom 0 (a :: rest)).map (fun (s : Nat) => (s : Int) * sd)).isEmpty = false := by
+    simp [startsFrom]
+  have h2 : headNotZero ((startsFrom 0 (a :: rest)).map (fun (s : Nat) => (s : Int) * sd)) = false := by
+    simp [startsFrom, headNotZero]
+  have h3 := starts_increasing sd hsd (a :: rest) hpos 0
+  have h4 : ((startsFrom 0 (a :: rest)).map (fun (s : Nat) => (s : Int) * sd)).any
+      (fun i => decide (Int.fmod i (sd : Int) ≠ 0)) = false := by
+    simp only [List.any_eq_false, List.mem_map, decide_eq_true_eq, ne_eq, Decidable.not_not]
+    rintro i ⟨s, _, rfl⟩
+    rw [Int.fmod_eq_emod_of_nonneg _ (by omega)]
+    exact Int.mul_emod_left _ _
+  have h5 : lastBeyond ((startsFrom 0 (a :: rest)).map (fun (s : Nat) => (s : Int) * sd))
+      ((((a :: rest).flatten.length : Nat) : Int) * (sd : Int)) = false := by
+    unfold lastBeyond
+    cases hl : ((startsFrom 0 (a :: rest)).map (fun (s : Nat) => (s : Int) * sd)).getLast? with
+    | none => rfl
+    | some l =>
+      have hmem := List.mem_of_getLast? hl
+      simp only [List.mem_map] at hmem
+      obtain ⟨s, hs, rfl⟩ := hmem
+      have := starts_lt_total (a :: rest) hpos 0 s hs
+      simp only [Nat.zero_add] at this
+      have hlt : (s : Int) * (sd : Int) < (((a :: rest).flatten.length : Nat) : Int) * (sd : Int) :=
+        Int.mul_lt_mul_of_pos_right (by omega) (by omega)
+      simp only [ge_iff_le, decide_eq_false_iff_not, Int.not_le]
+      exact hlt
+  unfold checkIndexList
+  simp only [hz, indexListTotal]
+  generalize (startsFrom 0 (a :: rest)).map (fun (s : Nat) => (s : Int) * sd) = zl at h1 h2 h3 h4 h5 ⊢
+  rw [h1, h2, h3, h4, h5, indexListGuard_spec]
+  rfl
+
+/-- the cuts recovered from the stored index list are the starts of all annotations but the first
+(and the list passes the validation) -/
+theorem cutsOf_indexList {β : Type} (sd : Nat) (hsd : 0 < sd) (a : List β) (rest : List (List β))
+    (hpos : ∀ x ∈ a :: rest, 0 < x.length) :
+    cutsOf (sd : Int) (((a :: rest).flatten.length : Nat) : Int)
+      (indexListFrom indexListBase ((a :: rest).map (fun x => (x.length : Int) * sd))) =
       .ok (startsFrom a.length rest) := by
   have h := indexList_starts sd (a :: rest) 0
   simp only [Int.natCast_zero, Int.zero_mul, Int.add_zero] at h
   have hb : indexListBase = 1 := rfl
+  obtain ⟨z, hz⟩ := checkIndexList_starts sd hsd a rest hpos
   unfold cutsOf
-  rw [hb, h]
+  rw [hb, h, hz]
   have h2 : mapE (fun i => splitIndex i (sd : Int)) ((startsFrom 0 (a :: rest)).map (fun (s : Nat) => 1 + (s : Int) * sd)) =
       .ok ((startsFrom 0 (a :: rest)).map (fun (s : Nat) => (s : Int))) := by
     generalize startsFrom 0 (a :: rest) = l
     induction l with
     | nil => rfl
     | cons x xs ih => simp [mapE, splitIndex_start sd hsd, ih]
-  rw [h2]
+  simp only [h2]
   have hd : splitDropFirst = 1 := rfl
   simp only [hd, startsFrom, List.map_cons, List.drop_succ_cons, List.drop_zero, Nat.zero_add]
   generalize startsFrom a.length rest = l
@@ -443,7 +541,7 @@ theorem splitRows_point {α : Type} (e : Enc α) (ct stored : Int)
   exact equalSplit_flatten 1 G hne h1
 
 theorem splitRows_poly {α : Type} (gt : String) (hgt : gt = "POLYLINE" ∨ gt = "POLYGON") (e : Enc α) (ct : Int) (sd : Nat)
-    (hsd : 0 < sd) (G : GData α) (hne : G ≠ [])
+    (hsd : 0 < sd) (G : GData α) (hne : G ≠ []) (hpos : ∀ a ∈ G, 0 < a.length)
     (hil : e.indexList = some (indexListFrom indexListBase (G.map (fun a => (a.length : Int) * sd)))) :
     splitRows gt e ct (sd : Int) G.flatten = .ok G := by
   unfold splitRows
@@ -451,9 +549,9 @@ theorem splitRows_poly {α : Type} (gt : String) (hgt : gt = "POLYLINE" ∨ gt =
   have h1 : ¬ (gt = "RECTANGLE" ∨ gt = "ELLIPSE") := by rcases hgt with h | h <;> subst h <;> decide
   have h2 : ¬ (gt = "POINT") := by rcases hgt with h | h <;> subst h <;> decide
   simp only [h1, h2, hgt, if_true, if_false, hil]
-  match G, hne with
-  | a :: rest, _ =>
-    rw [cutsOf_indexList sd hsd a rest]
+  match G, hne, hpos with
+  | a :: rest, _, hpos =>
+    rw [cutsOf_indexList sd hsd a rest hpos]
     simp only [show ¬ ((1 : Int) = 0) by decide, if_false]
     rw [splitCuts_flatten0]
 
@@ -598,6 +696,11 @@ theorem splitRows_valid {α : Type} [DecidableEq α] (gt : String) (finite : α 
       e.indexList = some (indexListFrom indexListBase (gd.map (fun a => (a.length : Int) * sd)))) :
     splitRows gt e ct (sd : Int) (castG cast gd).flatten = .ok (castG cast gd) := by
   have hne := castG_ne_nil cast gd v.nonempty
+  have hposG : ∀ a ∈ castG cast gd, 0 < a.length := by
+    intro a ha
+    simp only [castG, List.mem_map] at ha
+    obtain ⟨a0, ha0, rfl⟩ := ha
+    simpa using countOk_pos gt a0 (v.counts a0 ha0)
   rcases valid_gt gt finite cast gd c v with h | h | h | h | h
   · subst h
     refine splitRows_point e ct _ _ hne (castG_length_of cast gd 1 ?_)
@@ -618,11 +721,11 @@ theorem splitRows_valid {α : Type} [DecidableEq α] (gt : String) (finite : α 
     simp [countOk] at this
     exact this
   · subst h
-    refine splitRows_poly _ (Or.inl rfl) e ct sd hsd _ hne ?_
+    refine splitRows_poly _ (Or.inl rfl) e ct sd hsd _ hne hposG ?_
     rw [castG_lengths]
     exact hil (Or.inr rfl)
   · subst h
-    refine splitRows_poly _ (Or.inr rfl) e ct sd hsd _ hne ?_
+    refine splitRows_poly _ (Or.inr rfl) e ct sd hsd _ hne hposG ?_
     rw [castG_lengths]
     exact hil (Or.inl rfl)
 
